@@ -308,8 +308,22 @@ def unit_si(prop, which):
     return unit
 
 
+def unit_si_frame(prop, which):
+    def unit(tier, known):
+        from contracts import si_frame as C
+        jobs = [("contracts.si_frame", "generate", (prop, which, label)) for label in C.LABELS[which]]
+        from contracts import si_stream
+        rm = "rtc.c01" if prop == "C01" else "rtc.c03"
+        tc = getattr(si_stream, "to_case_" + rm[-3:])
+        if which in ("dft", "idft"):
+            tc = C.make_to_case(tc)
+        return run_parallel("si_" + which, jobs, to_case=tc, replay_module=rm)
+    unit.__name__ = "si_" + which
+    return unit
+
+
 UNITS = {
-    "C03": [unit_si("C03", w) for w in ("chunk", "handle_skip", "preamble", "finalize", "full")],
+    "C03": [unit_si("C03", w) for w in ("chunk", "handle_skip", "preamble", "finalize", "full")] + [unit_si_frame("C03", w) for w in ("fill", "frame", "dft", "idft")],
     "C13": [_lazy("contracts.shorten", "unit_bit_reader", "C13")],
     "C11": [unit_read_signal("C11", "dispatch"), unit_read_signal("C11", "wds"), unit_read_signal("C11", "infer")],
     "C16": [unit_std("C16", "accumulate_vector"), unit_std("C16", "apply_vector"), unit_std("C16", "have_stats")],
@@ -325,7 +339,7 @@ UNITS = {
     "C10": [_lazy_list("contracts.cli", "units", "C10", k) for k in range(3)],
     "C19": [_scales("C19")],
     "C02": [unit_stft_frame("C02"), unit_stft("C02", "full"), unit_tri("C02", "init"), unit_tri("C02", "truncated")],
-    "C01": [unit_stft("C01", "finalize"), unit_stft("C01", "chunk"), unit_fbf("C01")] + [unit_si("C01", w) for w in ("chunk", "handle_skip", "finalize", "full")],
+    "C01": [unit_stft("C01", "finalize"), unit_stft("C01", "chunk"), unit_fbf("C01")] + [unit_si("C01", w) for w in ("chunk", "handle_skip", "finalize", "full")] + [unit_si_frame("C01", w) for w in ("fill", "frame", "dft")],
     "C04": [unit_stft("C04", "finalize"), unit_stft("C04", "chunk"), unit_stft("C04", "full"), unit_fbf("C04"), unit_stft_fresh("C04")] +
            [unit_si("C04", w) for w in ("preamble", "finalize", "full", "chunk")],
 }
